@@ -341,7 +341,8 @@ def run(s):
         try:
             nT, nP = rnd.randint(5, 9), rnd.randint(5, 9)
             T = rnd.choice([0.0, 300.0]) + rnd.choice([100.0, 250.0]) * numpy.arange(nT)
-            P = rnd.choice([0.0, 5.0]) + rnd.choice([1.0, 10.0, 2.5]) * numpy.arange(nP)
+            # pressure grids may start below zero (P_MIN < 0 is a legitimate setting): every third table set does
+            P = (-6.0 if t % 3 == 1 else rnd.choice([0.0, 5.0])) + rnd.choice([1.0, 10.0, 2.5]) * numpy.arange(nP)
             funcs = write_tables(tmp, T, P)
             os.chdir(tmp)
             # ---------- extract
